@@ -143,6 +143,9 @@ fn run(a: &[String]) {
                 "update" => kismet_cache::raw_cache::insert_or_update(&a[3], &a[4]).map(|_| String::new()),
                 "touchins" => kismet_cache::raw_cache::insert_or_touch(&a[3], &a[4]).map(|_| String::new()),
                 "touch" => kismet_cache::raw_cache::touch(&a[3]).map(|b| b.to_string()),
+                // what a lookup does after opening the entry, without reading it (reading would let a
+                // relatime mount set the access time by itself)
+                "opentouch" => std::fs::File::open(&a[3]).and_then(|f| kismet_cache::raw_cache::ensure_file_touched(&f)).map(|_| String::new()),
                 _ => panic!("bad raw op"),
             };
             marker("end");
